@@ -113,6 +113,41 @@ fn main() {
             }
         }
     }
+    // --- the consequence the property names: a table holding one river bucket per CLASS (keyed by the
+    // canonical form, as Lookup::grow(River) builds it) must answer, through the real Lookup::lookup,
+    // every member of the class with that member's own river bucket
+    {
+        use robopoker::cards::isomorphism::Isomorphism;
+        use robopoker::clustering::lookup::Lookup;
+        let nclass = if a.thorough() { 1500 } else { 160 };
+        let mut members: Vec<Observation> = vec![];
+        let mut map = std::collections::BTreeMap::new();
+        for _ in 0..nclass {
+            let (pocket, public) = gen_obs(&mut rng, 5);
+            let o = obs(pocket, public);
+            let canon = match catch(|| Isomorphism::from(o)) { Some(c) => c, None => continue };
+            let rep = Observation::from(canon);
+            let bucket = match catch(|| Abstraction::from(rep.equity())) { Some(b) => b, None => continue };
+            map.insert(canon, bucket);
+            members.push(o);
+        }
+        let table = Lookup::from(map);
+        for o in members {
+            for p in perms.iter() {
+                let o2 = p.permute(&o);
+                run.evaluations += 1;
+                run.spec_checked += 1;
+                let own = catch(|| Abstraction::from(o2.equity()));
+                let got = catch(std::panic::AssertUnwindSafe(|| table.lookup(&o2)));
+                if own.is_none() || got != own {
+                    run.fail("class-table-does-not-serve-member", &format!("river {} (a relabeling of {}) looked up in a table keyed by canonical forms", o2, o),
+                        &format!("its own river bucket {:?}", own.map(|b| b.to_string())), &format!("{:?}", got.map(|b| b.to_string())));
+                    break;
+                }
+            }
+            run.count("class-table-lookup");
+        }
+    }
     for t in 0..nturn {
         let (pocket, public) = if t % 3 == 0 {
             // double-paired two-tone board (e.g. Kh Kd 7h 7d) with a pocket that is asymmetric in the two suits
